@@ -5,6 +5,15 @@ HERE = os.path.dirname(os.path.abspath(__file__))
 BASELINE = "cd /repo && /venv/bin/python -m pytest -ra -q -p no:cacheprovider --timeout=900 --continue-on-collection-errors"
 
 CLAIMED = {
+    'C17': dict(
+        design='4.17',
+        text='Deductive proof, SHA-1 idealised as injective, of the encoding kernel of types.nutils_hash: the real function is run twice on symbolic values of one kind and the two outer SHA-1 '
+             'input buffers are compared: equal buffers force equal type names (NUL-terminated prefix) and equal leaf bytes / equal number of children with bytewise-equal child digests '
+             '(bool/int/float/complex, str, bytes, type, None/Ellipsis, tuple/list and __getnewargs__ with loop invariants over the number of items, dict, set/frozenset); for dict and set the '
+             'buffer is the same for every iteration order (only sorted() discharges it). No bound on lengths or item counts.',
+        note='Trusted/assumed: SHA-1, repr and str.encode injective; type names NUL-free and distinct per type; sorted() and set iteration as specified; structural induction over values (meta). '
+             'Not yet under contract: ndarray, seekable-file, MethodType, dataclass branches, Immutable/DataClass/frozendict/frozenmultiset.__nutils_hash__, interning. Pickle round trips, other processes, GC: outside.',
+        technique='contract-based deductive verification: two-run harness over the real function body, byte strings as arrays, loop invariants, ast->z3'),
     'C11': dict(
         design='4.11',
         text='Deductive proof of the lookup kernel: for IndexTransforms, MaskedTransforms, ReorderedTransforms, UniformDerivedTransforms and DerivedTransforms a harness composes the REAL '
@@ -82,7 +91,7 @@ NOT_APPLICABLE = {
     'C02': 'whole-DAG faithful translation into generated numpy programs: no function-level postcondition carries it; would need a denotational semantics of ~150 node classes and of the generated code (DESIGN 4.2)',
     'C03': 'history/non-interference property of a program that exists only as a generated string; no per-function contract expresses it (DESIGN 4.3)',
 }
-PENDING = ['C04', 'C05', 'C07', 'C08', 'C10', 'C16', 'C17', 'C18', 'C19', 'C20']
+PENDING = ['C04', 'C05', 'C07', 'C08', 'C10', 'C16', 'C18', 'C19', 'C20']
 
 
 def main():
